@@ -97,6 +97,12 @@ Extra == <<
     <<Set("f", If(Hide(WBool, B(TRUE)), IdF, FnE(<<P("a", WMulti(<<WInt, WFloat>>))>>, WFloat, <<Ret(F(3))>>))), CallE(V("f"), <<H(1)>>)>>),
   X("while-set-break-in-test", FALSE,
     <<WhileSet("x", WInt, Field(ModE(<<Set("q", H(1)), If1(Hide(WBool, B(TRUE)), Break)>>), "q"), Block(<<Break>>)), I(0)>>),
+  \* witnesses of the named differences D1, D2, D5 (Static.tla): the implementation is more precise after folding
+  X("named-D1-if-folding", FALSE, <<If(B(TRUE), Block(<<I(1)>>), Block(<<S(<<97>>)>>))>>),
+  X("named-D2-at-folding", FALSE, <<At(ArrE(<<I(1), S(<<97>>)>>), I(0))>>),
+  X("named-D5-post-fold-name", TRUE, <<Set("x", If(B(TRUE), Block(<<I(1)>>), Block(<<S(<<97>>)>>))), Bin("+", V("x"), I(1))>>),
+  X("named-D5-constant-name", TRUE, <<Set("x", At(ArrE(<<I(1), S(<<97>>)>>), I(0))), FnDecl("f", <<>>, WInt, <<Ret(Bin("+", V("x"), I(1)))>>), CallE(V("f"), <<>>)>>),
+  X("named-D4-folding-error", FALSE, <<Bin("/", I(1), I(0))>>),
   \* rejected programs, one per error class
   X("rej-unbound", TRUE, <<V("nope")>>),
   X("rej-lit-ok-then-destruct-non-tuple", TRUE, <<Destruct(<<"a", "b">>, H(1))>>),
